@@ -44,7 +44,7 @@ Theorem focus_valid_frames_refuted :
     let h := build FUEL specs in
     get_pos h id = ROk 101 /\ focus_child h id = None /\ gfp FUEL h id = RErr EAttr.
 Proof.
-  exists [SLeaf 10 false 0 0 true []; SFrame 10 false 0 0 0 None None 101], 1.
+  exists [SLeaf 10 false 0 0 0 true []; SFrame 10 false 0 0 0 0 None None 101], 1.
   vm_compute. repeat split; reflexivity.
 Qed.
 Print Assumptions focus_valid_frames_refuted.
@@ -70,6 +70,9 @@ Proof. exact set_pos_error_keeps_focus. Qed.
 Print Assumptions failed_assignment_changes_no_focus.
 
 (* ============ clause 2: a keypress is offered only to widgets on the focus path ============ *)
+(* Decorations are part of the model: AttrMap is transparent, a Padding clamps the cursor column, a WidgetDisable
+   (n_deco = 2) is unselectable and stops keys, mouse events and the focus flag of render.  The routes below never
+   pass through a WidgetDisable, however the decorations are nested ([kr_step] / [fr_step] demand is_dis n = false). *)
 (* For every tree, state (ListBox focus requests may be pending) and fuel: every leaf that is offered the key is reached
    by a chain of dispatch steps, each from a container to the widget that is ITS FOCUS in the heap in which that
    container dispatches: [kp_dispatch_heap] = the heap after the container's own preparation (ListBox: the pending
@@ -103,14 +106,14 @@ Print Assumptions unhandled_key_unchanged.
 (* the two former counterexamples (a Pile with a stale selectable() == False cache; an empty Columns), now regression
    examples: the key comes back and no focus moves (corpus/C08/pile_swallows_key.json, columns_empty_key.json) *)
 Definition stale_pile_pool : list spec :=
-  [SLeaf 10 false 0 0 false []; SLeaf 10 false 0 0 false []; SList KPile 10 false 0 0 None [1] 0 0 0;
-   SList KPile 10 false 0 0 None [0; 2] 0 0 0; SLeaf 10 false 0 0 true []].
+  [SLeaf 10 false 0 0 0 false []; SLeaf 10 false 0 0 0 false []; SList KPile 10 false 0 0 0 None [1] 0 0 0;
+   SList KPile 10 false 0 0 0 None [0; 2] 0 0 0; SLeaf 10 false 0 0 0 true []].
 Example former_counterexamples :
   (let h := fst (edit FUEL 2 (MonitoredList.Append 4) (build FUEL stale_pile_pool)) in
    nonnav [120] = true /\ sel FUEL h 3 = false /\ sel FUEL h 2 = true /\
    snd (kp FUEL 3 [120] h) = ROk (Some [120], []) /\ get_pos (fst (kp FUEL 3 [120] h)) 3 = ROk 0)
   /\
-  snd (kp FUEL 0 [120] (build FUEL [SList KCols 10 false 0 0 None [] 0 0 0])) = ROk (Some [120], []).
+  snd (kp FUEL 0 [120] (build FUEL [SList KCols 10 false 0 0 0 None [] 0 0 0])) = ROk (Some [120], []).
 Proof. vm_compute. repeat split; reflexivity. Qed.
 
 (* ============ clause 4: arrow keys move focus only onto selectable children ============ *)
@@ -135,6 +138,51 @@ Theorem arrows_land_on_selectable_pick :
 Proof. exact cols_pick_selectable. Qed.
 Print Assumptions arrows_land_on_selectable_pick.
 
+(* never past a selectable child: left/right give the focus to the NEAREST selectable column in that direction ... *)
+Theorem columns_right_lands_on_nearest :
+  forall f id h h' n, getn h id = Some n -> nk n = KCols -> cols_move f id (range_up (nfocus n + 1) (nlen n)) h = (h', ROk true) ->
+  exists j c, nfocus n < j < nlen n /\ nthz (items n) j = Some c /\ sel f h c = true /\ focus_child h' id = Some c /\
+    forall i ci, nfocus n < i < j -> nthz (items n) i = Some ci -> sel f h ci = false.
+Proof. exact columns_right_nearest. Qed.
+Print Assumptions columns_right_lands_on_nearest.
+
+Theorem columns_left_lands_on_nearest :
+  forall f id h h' n, getn h id = Some n -> nk n = KCols -> cols_move f id (range_down (nfocus n)) h = (h', ROk true) ->
+  exists j c, 0 <= j < nfocus n /\ nthz (items n) j = Some c /\ sel f h c = true /\ focus_child h' id = Some c /\
+    forall i ci, j < i < nfocus n -> nthz (items n) i = Some ci -> sel f h ci = false.
+Proof. exact columns_left_nearest. Qed.
+Print Assumptions columns_left_lands_on_nearest.
+
+(* ... and the focus stays (nothing at all is written) exactly when no candidate in that direction is selectable *)
+Theorem columns_stay_iff_none_selectable :
+  forall f id cands h h' n, getn h id = Some n -> cols_move f id cands h = (h', ROk false) ->
+    h' = h /\ forall j c, In j cands -> nthz (items n) j = Some c -> sel f h c = false.
+Proof. exact cols_move_false. Qed.
+Print Assumptions columns_stay_iff_none_selectable.
+
+(* Pile up/down: the first selectable candidate (candidates are the positions above, nearest first, or below) gets the
+   focus; no candidate selectable <-> nothing is written *)
+Theorem pile_lands_on_first_selectable :
+  forall f id up cands h h' n, getn h id = Some n -> nk n = KPile -> pile_move f id up cands h = (h', ROk true) ->
+  exists pre j post c h1 h2, cands = pre ++ j :: post /\ nthz (items n) j = Some c /\ sel f h c = true /\
+    upd_pref_from_focus f id h = (h1, ROk tt) /\ w_focus id j h1 = (h2, ROk tt) /\
+    forall i ci, In i pre -> nthz (items n) i = Some ci -> sel f h ci = false.
+Proof. exact pile_move_first. Qed.
+Print Assumptions pile_lands_on_first_selectable.
+
+Theorem pile_stays_iff_none_selectable :
+  forall f id up cands h h' n, getn h id = Some n -> pile_move f id up cands h = (h', ROk false) ->
+    h' = h /\ forall j c, In j cands -> nthz (items n) j = Some c -> sel f h c = false.
+Proof. exact pile_move_false. Qed.
+Print Assumptions pile_stays_iff_none_selectable.
+
+(* GridFlow rows and ListBox up/down choose with [find]: the element found is the first that passes the test *)
+Theorem find_lands_on_first :
+  forall (A : Type) (p : A -> bool) l x, find p l = Some x ->
+    exists pre post, l = pre ++ x :: post /\ p x = true /\ forall y, In y pre -> p y = false.
+Proof. exact @find_first. Qed.
+Print Assumptions find_lands_on_first.
+
 (* tree-wide: after a keypress with an arrow key (whatever it returns, even a model error) every focus anywhere in the
    tree is the focus it was before or a child whose selectable() was True before; premise: no ListBox has a pending
    set_focus request (completing a request restores the old focus position for a moment, selectable or not) *)
@@ -155,7 +203,7 @@ Proof. exact edit_selectable_iff_child. Qed.
 Print Assumptions selectable_iff_child.
 
 Theorem selectable_iff_child_gridflow :
-  forall f h id n, getn h id = Some n -> nk n = KGrid -> sel (S f) h id = existsb (sel f h) (items n).
+  forall f h id n, getn h id = Some n -> nk n = KGrid -> sel_own (S f) h id = existsb (sel f h) (items n).
 Proof. exact grid_selectable_iff_child. Qed.
 Print Assumptions selectable_iff_child_gridflow.
 
@@ -210,10 +258,10 @@ Print Assumptions translated_command_table.
 (* ============ non-vacuity ============ *)
 (* a pool: Frame(body = Pile[ Columns[a b c], d ], footer = e) *)
 Definition demo_pool : list spec :=
-  [SLeaf 10 false 0 0 true [[120]]; SLeaf 10 false 0 0 false []; SLeaf 10 false 0 0 true [];
-   SList KCols 60 false 0 0 None [0; 1; 2] 1 0 0; SLeaf 60 false 0 0 true [];
-   SList KPile 60 false 0 0 None [3; 4] 0 0 0; SLeaf 60 false 0 0 true [];
-   SFrame 60 false 0 0 5 None (Some 6) 100].
+  [SLeaf 10 false 0 0 0 true [[120]]; SLeaf 10 false 0 0 0 false []; SLeaf 10 false 0 0 0 true [];
+   SList KCols 60 false 0 0 0 None [0; 1; 2] 1 0 0; SLeaf 60 false 0 0 0 true [];
+   SList KPile 60 false 0 0 0 None [3; 4] 0 0 0; SLeaf 60 false 0 0 0 true [];
+   SFrame 60 false 0 0 0 5 None (Some 6) 100].
 
 Example demo_invariant : Inv (node_ok true) (build FUEL demo_pool) /\ NoPending (build FUEL demo_pool).
 Proof.
@@ -240,24 +288,34 @@ Proof. vm_compute. repeat split; reflexivity. Qed.
 (* geometry of the widened regime: a box Pile of 10 rows with a packed leaf of 2 rows and two weighted leaves (1 : 3)
    gives them 2, 2 and 6 rows (Pile.get_item_rows: int(8 * 1 / 4 + 0.5) = 2, then the remaining 6) *)
 Example demo_weights :
-  let h := build FUEL [SLeaf 20 false 2 0 true []; SLeaf 20 false 0 1 true []; SLeaf 20 false 0 3 false [];
-                       SList KPile 20 true 10 0 None [0; 1; 2] 0 0 0] in
+  let h := build FUEL [SLeaf 20 false 2 0 0 true []; SLeaf 20 false 0 1 0 true []; SLeaf 20 false 0 3 0 false [];
+                       SList KPile 20 true 10 0 0 None [0; 1; 2] 0 0 0] in
   match getn h 3 with Some n => heights FUEL h n | None => [] end = [2; 2; 6].
 Proof. vm_compute. reflexivity. Qed.
 
 (* Columns.column_widths: 30 columns, dividechars 1, a ('given', 5) column and two weighted leaves (1 : 2) -> 5, 8, 15 *)
 Example demo_column_weights :
-  let h := build FUEL [SLeaf 5 false 0 0 true []; SLeaf 9 false 0 1 true []; SLeaf 9 false 0 2 true [];
-                       SList KCols 30 false 0 0 None [0; 1; 2] 1 0 0] in
+  let h := build FUEL [SLeaf 5 false 0 0 0 true []; SLeaf 9 false 0 1 0 true []; SLeaf 9 false 0 2 0 true [];
+                       SList KCols 30 false 0 0 0 None [0; 1; 2] 1 0 0] in
   match getn h 3 with Some n => (cols_widths h n, col_x h n 2) | None => ([], 0) end = ([5; 8; 15], 15).
 Proof. vm_compute. reflexivity. Qed.
 
 (* a ListBox over a plain list (SimpleListWalker, n_cw = 1): deleting the focused last item pulls the focus index back
    inside (focus 2 of [a b c], del body[2] -> focus 1); inserting before the focus leaves the index where it was *)
 Example demo_simple_walker :
-  let h := build FUEL [SLeaf 9 false 0 0 true []; SLeaf 9 false 0 0 true []; SLeaf 9 false 0 0 true []; SLeaf 9 false 0 0 true [];
-                       SList KLBox 9 false 9 0 (Some 2) [0; 1; 2] 0 1 0] in
+  let h := build FUEL [SLeaf 9 false 0 0 0 true []; SLeaf 9 false 0 0 0 true []; SLeaf 9 false 0 0 0 true []; SLeaf 9 false 0 0 0 true [];
+                       SList KLBox 9 false 9 0 0 (Some 2) [0; 1; 2] 0 1 0] in
   (get_pos (fst (edit FUEL 4 (MonitoredList.DelItem 2) h)) 4, get_pos (fst (edit FUEL 4 (MonitoredList.Insert 0 3) h)) 4,
    focus_child (fst (edit FUEL 4 (MonitoredList.Insert 0 3) h)) 4)
   = (ROk 1, ROk 2, Some 1).
+Proof. vm_compute. reflexivity. Qed.
+
+(* decorations: Columns[a, WidgetDisable(b), c], all three leaves selectable, focus on a: 'right' skips the disabled
+   column; a disabled subtree is never offered a key and never rendered with focus, whatever focus it holds *)
+Example demo_decorations :
+  let h := build FUEL [SLeaf 9 false 0 0 0 true []; SLeaf 9 false 0 0 2 true [[120]]; SLeaf 9 false 0 0 1 true [];
+                       SList KCols 30 false 0 0 0 (Some 0) [0; 1; 2] 1 0 0] in
+  (sel FUEL h 1, sel_own FUEL h 1, get_pos (fst (kp FUEL 3 [114; 105; 103; 104; 116] h)) 3,
+   snd (kp FUEL 1 [120] h), snd (rn FUEL 1 true h))
+  = (false, true, ROk 2, ROk (Some [120], []), ROk []).
 Proof. vm_compute. reflexivity. Qed.
